@@ -60,12 +60,18 @@ const (
 
 func (b *OBuilder) state(path string, elem bool) int {
 	if elem && b.Admissible {
-		// elements: known zero / known full only
+		// elements of an admissible plan: known zero, known full or unknown - never null
 		d := 1
 		if b.Base == OBaseKnownZero {
 			d = 0
 		}
-		return stZero + b.pick(path, 2, d)
+		if b.NoUnknown {
+			return stZero + b.pick(path, 2, d)
+		}
+		if b.Base == OBaseUnknown {
+			d = 2
+		}
+		return []int{stZero, stFull, stUnknown}[b.pick(path, 3, d)]
 	}
 	if b.NoUnknown {
 		dom := []int{stNull, stZero, stFull}
